@@ -112,4 +112,12 @@ KERNELS += [
        fn='stop_condition', coq='requests_stop_condition', free=[('current_sim_time', 'Z')], params=[('value', 'Z')], ret='bool'),
   dict(file=H+'state/simulation_state/update/charging_price_update.py', cls='ChargingPriceUpdate', inside=['update'],
        fn='stop_condition', coq='prices_stop_condition', free=[('current_sim_time', 'Z')], params=[('value', 'Z')], ret='bool'),
+  # ---- the built-in dispatcher's eligibility filters (closures of Dispatcher.generate_instructions) ------------------------------
+  dict(file=H+'dispatcher/instruction_generator/dispatcher.py', cls='Dispatcher', inside=['generate_instructions', '_solve_assignment'],
+       fn='_valid_request', coq='dispatcher_valid_request', free=[('membership_id', 'option id')], params=[('r', 'Request')], ret='bool'),
+  dict(file=H+'dispatcher/instruction_generator/dispatcher.py', cls='Dispatcher', inside=['generate_instructions', '_solve_assignment'],
+       fn='_is_valid_for_dispatch', coq='dispatcher_valid_vehicle',
+       free=[('environment', 'Env'), ('valid_dispatch_states', 'list SKind'), ('matching_range_km_threshold', 'Q'),
+             ('base_charging_range_km_threshold', 'Q'), ('membership_id', 'option id')],
+       params=[('vehicle', 'Vehicle')], ret='bool'),
 ]
